@@ -438,6 +438,9 @@ fn worker(def: &PropDef, args: &WorkerArgs) -> WorkerReport {
 }
 
 fn replay(v: &Value) -> CaseReport {
+    if let Some(o) = v.get("ordering_stress") {
+        return ordering_report(o["children"].as_u64().unwrap_or(1500) as u32, 0);
+    }
     let case: C15Case = serde_json::from_value(v.clone()).expect("case");
     run_case(&case)
 }
@@ -445,11 +448,258 @@ fn replay(v: &Value) -> CaseReport {
 pub static C15: PropDef = PropDef {
     id: "C15",
     prefixes: &["C15/"],
-    rule: "forkprobe: histories (<=20) over {register flag, register_usize(value), register_conditional_shutdown(status 0..255, condition flag), spy action, application stores to the shared flags, deliver (real raise)} on 1-3 of 7 signals (TERM/QUIT/INT/HUP/USR1/USR2/ALRM), flags shared between roles; oracle: a model runs each delivery's actions in registration order against the flag state - flag values after every step, exact wait status at exactly the predicted delivery, no action after a firing shutdown (spy actions write to the report pipe from inside the handler), no atexit hook. Non-trivial = a shutdown is registered and the condition was stored to between deliveries, or >=2 deliveries reached a shutdown action; distinct = the case value",
+    rule: "forkprobe: histories (<=20) over {register flag, register_usize(value), register_conditional_shutdown(status 0..255, condition flag), spy action, application stores to the shared flags, deliver (real raise)} on 1-3 of 7 signals (TERM/QUIT/INT/HUP/USR1/USR2/ALRM), flags shared between roles; oracle: a model runs each delivery's actions in registration order against the flag state - flag values after every step, exact wait status at exactly the predicted delivery, no action after a firing shutdown (spy actions write to the report pipe from inside the handler), no atexit hook. Non-trivial = a shutdown is registered and the condition was stored to between deliveries, or >=2 deliveries reached a shutdown action; distinct = the case value. Second family (worker 0, real threads, optimised build): the flag action and the conditional shutdown of one delivery against an application thread that arms the shutdown and then reads the flag, both SeqCst, at a self-tuned instant inside the delivery (up to 600 / 20000 forked children): surviving a delivery although the flag was still read false after arming is the store-buffering outcome only weaker accesses inside the actions allow",
     assumptions: &["deliveries are generated only for signals the history already registered (the default action would kill the child by design)"],
     cases: (600, 60_000),
     shrink_iters: 300,
     worker,
     replay,
-    extra: None,
+    extra: Some(extra),
 };
+
+// ---------------------------------------------------------------------------------------------
+// Ordering family (worker 0): the flag actions and the conditional shutdown take part in the one
+// total order of the application's SeqCst operations. Real threads, real signals, optimised build.
+//
+//     handler (thread 1, one delivery)        application (thread 2)
+//     seen  <- true        (flag action)      armed <- true      (SeqCst)
+//     if armed { _exit(42) }  (shutdown)      r = seen           (SeqCst)
+//
+// If the application reads r == false, the delivery had not yet run its first action when the
+// shutdown was armed, so the second action of that very delivery must find the condition true and
+// end the process. A process that survives that delivery although r == false has shown the
+// store-buffering outcome, which only weaker-than-SeqCst accesses inside the actions permit (the
+// flags are caller-owned std atomics: no hook can see their orderings, only execution can).
+// Technique: each forked child runs rounds; a marker action publishes a time stamp, the
+// application thread arms `center +- jitter` ticks later; `center` (shared between children) is
+// tuned towards the boundary between "armed early: child dies with 42" and "armed late: r == true".
+
+#[cfg(target_arch = "x86_64")]
+mod ordering {
+    use super::*;
+    use std::arch::x86_64::_rdtsc;
+    use std::sync::atomic::{AtomicBool, AtomicI64, AtomicU64, Ordering};
+    use std::sync::Arc;
+
+    const SHUTDOWN_STATUS: i32 = 42;
+    const VIOLATION_STATUS: i32 = 99;
+    const MARKER_SPIN: u64 = 2000;
+    const JITTER: u64 = 400;
+    const WARM_UP: u64 = 20;
+    const ROUNDS_PER_CHILD: u64 = 4000;
+
+    #[repr(C, align(128))]
+    pub struct Shared {
+        pub center: AtomicI64,
+        pub late: AtomicU64,
+        pub violations: AtomicU64,
+    }
+    #[repr(C, align(128))]
+    struct Line(AtomicU64);
+    static READY: Line = Line(AtomicU64::new(0));
+    static GO: Line = Line(AtomicU64::new(0));
+    static DONE: Line = Line(AtomicU64::new(0));
+    static RESULT: Line = Line(AtomicU64::new(0));
+    static ACK: Line = Line(AtomicU64::new(0));
+    #[allow(clippy::declare_interior_mutable_const)]
+    const EMPTY_LINE: Line = Line(AtomicU64::new(0));
+    static SCRATCH: [Line; 40] = [EMPTY_LINE; 40];
+
+    fn xorshift(state: &mut u64) -> u64 {
+        let mut x = *state;
+        x ^= x << 13;
+        x ^= x >> 7;
+        x ^= x << 17;
+        *state = x;
+        x
+    }
+    fn allowed_cpus() -> Vec<usize> {
+        unsafe {
+            let mut set: libc::cpu_set_t = std::mem::zeroed();
+            if libc::sched_getaffinity(0, std::mem::size_of::<libc::cpu_set_t>(), &mut set) != 0 {
+                return Vec::new();
+            }
+            (0..libc::CPU_SETSIZE as usize).filter(|cpu| libc::CPU_ISSET(*cpu, &set)).collect()
+        }
+    }
+    fn pin(cpu: usize) {
+        unsafe {
+            let mut one: libc::cpu_set_t = std::mem::zeroed();
+            libc::CPU_SET(cpu, &mut one);
+            libc::sched_setaffinity(0, std::mem::size_of::<libc::cpu_set_t>(), &one);
+        }
+    }
+    fn wait_for(what: &AtomicU64, val: u64) {
+        while what.load(Ordering::Acquire) != val {
+            std::hint::spin_loop();
+        }
+    }
+
+    fn child(shared: &'static Shared, seed: u64, cpus: Option<(usize, usize)>) -> ! {
+        normalise_signals();
+        unsafe { libc::alarm(60) };
+        if let Some(c) = cpus {
+            pin(c.0);
+        }
+        let seen = Arc::new(AtomicBool::new(false));
+        let _spacer: Vec<u8> = Vec::with_capacity(4096);
+        let armed = Arc::new(AtomicBool::new(false));
+        let sig = libc::SIGUSR1;
+        let peek = Arc::clone(&armed);
+        unsafe {
+            signal_hook::low_level::register(sig, move || {
+                let _ = peek.load(Ordering::Relaxed);
+                let start = _rdtsc();
+                GO.0.store(start, Ordering::Release);
+                while _rdtsc().wrapping_sub(start) < MARKER_SPIN {}
+                for line in SCRATCH.iter() {
+                    line.0.store(start, Ordering::Relaxed);
+                }
+            })
+            .expect("marker");
+        }
+        // the order matters: set the flag first, look at the condition second
+        signal_hook::flag::register(sig, Arc::clone(&seen)).expect("flag");
+        signal_hook::flag::register_conditional_shutdown(sig, SHUTDOWN_STATUS, Arc::clone(&armed)).expect("shutdown");
+        {
+            let seen = Arc::clone(&seen);
+            let armed = Arc::clone(&armed);
+            std::thread::spawn(move || {
+                if let Some(c) = cpus {
+                    pin(c.1);
+                }
+                let mut rng = seed | 1;
+                for i in 1u64.. {
+                    wait_for(&ACK.0, i - 1);
+                    for line in SCRATCH.iter() {
+                        line.0.store(i, Ordering::Relaxed);
+                    }
+                    seen.store(false, Ordering::SeqCst);
+                    armed.store(false, Ordering::SeqCst);
+                    let center = shared.center.load(Ordering::Relaxed);
+                    let jitter = (xorshift(&mut rng) % JITTER) as i64 - (JITTER / 2) as i64;
+                    let delay = (center + jitter).max(0) as u64;
+                    GO.0.store(0, Ordering::SeqCst);
+                    READY.0.store(i, Ordering::Release);
+                    let start = loop {
+                        let s = GO.0.load(Ordering::Acquire);
+                        if s != 0 {
+                            break s;
+                        }
+                    };
+                    while unsafe { _rdtsc() }.wrapping_sub(start) < delay {}
+                    if i <= WARM_UP {
+                        RESULT.0.store(1, Ordering::Relaxed);
+                        DONE.0.store(i, Ordering::Release);
+                        continue;
+                    }
+                    // arm, then look: both SeqCst, as an application that cares about the order would
+                    armed.store(true, Ordering::SeqCst);
+                    let r = seen.load(Ordering::SeqCst);
+                    RESULT.0.store(r as u64, Ordering::Relaxed);
+                    DONE.0.store(i, Ordering::Release);
+                }
+            });
+        }
+        for i in 1u64..=ROUNDS_PER_CHILD {
+            wait_for(&READY.0, i);
+            unsafe { libc::raise(sig) };
+            // still alive: the shutdown found its condition false
+            wait_for(&DONE.0, i);
+            if RESULT.0.load(Ordering::Relaxed) == 0 {
+                shared.violations.fetch_add(1, Ordering::SeqCst);
+                unsafe { libc::_exit(VIOLATION_STATUS) };
+            }
+            if i > WARM_UP {
+                shared.late.fetch_add(1, Ordering::Relaxed);
+                shared.center.fetch_sub(1, Ordering::Relaxed);
+            }
+            ACK.0.store(i, Ordering::Release);
+        }
+        unsafe { libc::_exit(0) }
+    }
+
+    /// Runs at most `children` forked children; returns (early, late, violations, final center).
+    pub fn hunt(children: u32, seed: u64) -> Result<(u64, u64, u64, i64), String> {
+        let shared: &'static Shared = unsafe {
+            let mem = libc::mmap(std::ptr::null_mut(), 4096, libc::PROT_READ | libc::PROT_WRITE, libc::MAP_SHARED | libc::MAP_ANONYMOUS, -1, 0);
+            if mem == libc::MAP_FAILED {
+                return Err("mmap".into());
+            }
+            &*(mem as *const Shared)
+        };
+        shared.center.store(MARKER_SPIN as i64, Ordering::Relaxed);
+        let allowed = allowed_cpus();
+        let cpus = if allowed.len() >= 2 {
+            let first = std::process::id() as usize % allowed.len();
+            let second = (first + allowed.len() / 2) % allowed.len();
+            Some((allowed[first], allowed[second]))
+        } else {
+            None
+        };
+        let mut early = 0u64;
+        let mut s = seed ^ 0x9E37_79B9_7F4A_7C15u64;
+        for _ in 0..children {
+            xorshift(&mut s);
+            let pid = unsafe { libc::fork() };
+            if pid < 0 {
+                return Err("fork".into());
+            }
+            if pid == 0 {
+                child(shared, s, cpus);
+            }
+            let mut status = 0;
+            loop {
+                let r = unsafe { libc::waitpid(pid, &mut status, 0) };
+                if r == pid {
+                    break;
+                }
+                if r < 0 && std::io::Error::last_os_error().kind() != std::io::ErrorKind::Interrupted {
+                    return Err("waitpid".into());
+                }
+            }
+            if !libc::WIFEXITED(status) {
+                return Err(format!("child ended with wait status {:#x}", status));
+            }
+            match libc::WEXITSTATUS(status) {
+                SHUTDOWN_STATUS => {
+                    early += 1;
+                    shared.center.fetch_add(3, Ordering::Relaxed);
+                }
+                VIOLATION_STATUS => break,
+                0 => {}
+                other => return Err(format!("child exited with unexpected status {}", other)),
+            }
+        }
+        Ok((early, shared.late.load(Ordering::Relaxed), shared.violations.load(Ordering::SeqCst), shared.center.load(Ordering::Relaxed)))
+    }
+}
+
+fn ordering_report(children: u32, seed: u64) -> CaseReport {
+    let mut rep = CaseReport::default();
+    rep.hash = hash_of(&("ordering", children));
+    rep.class("ordering-stress");
+    #[cfg(target_arch = "x86_64")]
+    match ordering::hunt(children, seed) {
+        Ok((early, late, violations, center)) => {
+            rep.count("armed-deliveries-terminated", early);
+            rep.count("armed-deliveries-survived-flag-seen", late);
+            rep.nontrivial = early > 0 && late > 0;
+            rep.sample = Some(json!({"ordering_stress": {"children": children}, "terminated_by_armed_shutdown": early, "survived_with_flag_seen": late, "survived_although_armed_before_flag": violations, "final_delay_ticks": center}));
+            if violations > 0 {
+                rep.viol("C15/survived-armed-delivery", format!("a delivery ran `flag := true; if armed {{ exit }}`; the application armed the shutdown (SeqCst) and then still read the flag false (SeqCst), and yet the process survived that delivery (after {} deliveries terminated by the armed shutdown and {} that survived with the flag seen): the actions' accesses are weaker than the one total order the property needs", early, late));
+            }
+        }
+        Err(e) => rep.inconclusive = Some(format!("ordering stress: {}", e)),
+    }
+    rep
+}
+
+fn extra(def: &PropDef, args: &WorkerArgs, report: &mut WorkerReport) {
+    let known = Known::load();
+    let children = if args.tier == Tier::Thorough { 20_000 } else { 600 };
+    let rep = ordering_report(children, args.seed);
+    if let Some(v) = report.absorb(def, &rep, &known) {
+        report.violation = Some((v.key, v.msg, json!({"ordering_stress": {"children": children}})));
+    }
+}
